@@ -39,14 +39,27 @@ FIXED = [
      'warping_paths_fast(a,b,max_dist=3) with distance 2 returned inf (4 > 3)', None),
     ('F13', 'C03', 'fix: the euclidean-inner-distance warping-paths kernel pruned with the squared-euclidean bound',
      "warping_paths_fast([1],[2.5,2.5,1],inner_dist='euclidean',use_pruning=True) returned 1.5 instead of 3.0", None),
+    ('F14', 'C09', 'fix: C lb_keogh started the upper envelope at 0 instead of -infinity',
+     'C lb_keogh differed from Python on negative data: lb_keogh([1],[-0.5,-2]) = 1.0 vs 1.5', None),
+    ('F15', 'C20', 'fix: dtw_cc_numpy imported dtw_cc by an absolute name that does not resolve inside the package',
+     'every C-engine call on a 2-D/3-D NumPy container raised AttributeError (module dtaidistance has no attribute DTWSeriesMatrix)', None),
+    ('F16', 'C20', 'fix: accept array.array series in the C pointer container as documented',
+     'distance_matrix(list of array.array, use_c=True) raised AttributeError (.ctypes)', None),
+    ('F17', 'C04', "fix: warping_paths_fast used the caller's full matrix as compact buffer although rows are shifted",
+     'warping_paths_fast([1.5,1.5],[1.5,0],window=1,psi=1) returned 0.0 / misplaced cells for window < length', None),
+    ('F18', 'C08', 'fix: dtw_expand_wps_slice wrote the top row of a slice one cell too far to the right',
+     'heap-buffer-overflow write in dtw_expand_wps_slice for l1=1,l2=4,window=2, slice [0:1,1:3]', None),
+    ('F19', 'C04', 'fix: warping_paths marked the whole last row with -1 when no relaxed end point exists',
+     'warping_paths([0],[2.5,0,0],psi=(0,1,0,0),max_dist=1.6) overwrote the last row with -1 (Python and C)', None),
+    ('F20', 'C04', 'fix: rewrite dtw_expand_wps_slice(_affinity) on top of dtw_wps_loc_columns',
+     'slices starting at rb>=1 or inside regions C/D were misplaced and written out of bounds (l1=2,l2=1,window=3, slice [1:2,0:2])', None),
+    ('F21', 'C04', 'fix: psi end-relaxation in the C warping-paths kernels ignored the window',
+     'warping_paths_fast([1.5,0],[1.5,1.5,1.5],window=1,psi=1) returned 0.0, expected 1.5; -1 marks misplaced', None),
+    ('F22', 'C04', 'fix: band of the C warping-paths matrix was one column too wide when the second series is longer',
+     'l1=4,l2=5,window=3: C matrix cell (4,1) filled although out of band', None),
 ]
 
 OPEN = [
-    {'id': 'K02', 'property': 'C11', 'status': 'open', 'check': 'value', 'api': 'dtw_ndim.warping_paths', 'engine': 'c',
-     'match': {'psi_end': True, 'window_lt_full': True},
-     'what': 'C warping_paths scans the relaxed last column/row of the compact array without regard to the band, so with a window smaller than '
-             'the series and psi end-relaxation it can take an out-of-band cell as end point: warping_paths_fast([1.5,0],[1.5,1.5,1.5],window=1,psi=1) = 0.0, expected 1.5',
-     'witness': {'s1': [[1.5], [0.0]], 's2': [[1.5], [1.5], [1.5]], 'ndim': 1, 'window': 1, 'psi': 1}},
     {'id': 'K01', 'property': 'C11', 'status': 'open', 'check': 'path', 'api': None, 'engine': None, 'match': {'psi_end': True},
      'what': 'warping path traced under psi end-relaxation can stop outside the relaxed corner or skip the chosen end row/column '
              '(both engines; best_path does not know psi and follows ties/-1 marks diagonally): dtw.warping_path([0,0],[0,1],psi=(0,0,0,1)) = [(0,0)]',
